@@ -244,7 +244,8 @@ class Harness(object):
             self.the_fault = cls(code, message, detail={'k': {'n': 'v', 'zero': 0, 'no': False}, 'one': 1})
             raise self.the_fault
         if k == 'server_fault':
-            self.the_fault = Fault('Server.Custom', 'server fault')
+            # an empty (falsy) detail is still a detail: set by the C09 obligations only
+            self.the_fault = Fault('Server.Custom', 'server fault', detail=getattr(self, 'server_fault_detail', None))
             raise self.the_fault
         if k in ('redirect_302', 'redirect_301', 'redirect_303'):
             from spyne.server.http import HttpRedirect
